@@ -12,7 +12,7 @@ use crate::refmodel::{p, Hid, Model, Param};
 use serde_json::{json, Map, Value};
 use std::sync::mpsc;
 
-pub const NCALLS: usize = 21;
+pub const NCALLS: usize = 23;
 /// calls explored to the deeper bound
 pub const CORE: [usize; 10] = [0, 1, 2, 4, 5, 7, 8, 11, 14, 17];
 
@@ -60,6 +60,8 @@ pub fn call_name(i: usize) -> &'static str {
         "sign C@0 (Sha256/32, 8 levels of W1: signature too long, refused)",
         "sign D@0 (Sha256/24, same parameter bytes as C: must sign)",
         "keygen A through Seed::from([u8; 32]) with non-zero bytes beyond the hash length",
+        "sign A@5 m0 with a key-update callback that panics (caught by the caller)",
+        "sign A@5 m0 with a key-update callback that itself signs with key B (nested call)",
     ][i]
 }
 
@@ -155,6 +157,26 @@ pub fn exec_call(seed: u64, i: usize) -> Vec<u8> {
             let seed = det_bytes(seed, "c09-CD", hid.n());
             enc_sign(&lib_api::sign(hid, &Model::new(hid).make_blob(0, &p8, &seed), &m0, Cb::Accept, None, Entry::Bytes))
         }
+        21 => enc_sign(&lib_api::sign(k.a_hid, &key_a, &m0, Cb::Panic, None, Entry::Bytes)),
+        22 => {
+            // the callback is user code: it may legitimately call into the library again
+            let inner: std::rc::Rc<std::cell::RefCell<Vec<u8>>> = Default::default();
+            let inner2 = inner.clone();
+            let (bh, kb, mm) = (k.b_hid, key_b.clone(), m0.clone());
+            lib_api::CB_HOOK.with(|h| {
+                *h.borrow_mut() = Some(Box::new(move || {
+                    // the hook is cleared while the nested call runs, so only the outer callback nests
+                    let r = lib_api::sign_no_hook(bh, &kb, &mm);
+                    *inner2.borrow_mut() = r;
+                }))
+            });
+            let outer = enc_sign(&lib_api::sign(k.a_hid, &key_a, &m0, Cb::Accept, None, Entry::Bytes));
+            lib_api::CB_HOOK.with(|h| *h.borrow_mut() = None);
+            let mut out = outer;
+            out.extend_from_slice(b"|NESTED:");
+            out.extend_from_slice(&inner.borrow());
+            out
+        }
         20 => {
             let mut s33 = vec![0xfeu8];
             s33.extend_from_slice(&k.a_seed);
@@ -195,7 +217,9 @@ pub fn pristine(seed: u64) -> Result<Vec<Vec<u8>>, String> {
 /// alphabet; single-threaded.  The log handed out with a divergence is the complete sequence of calls
 /// this process has executed so far (a legitimate history preceding the observed call).
 pub fn child_worker(seed: u64, first: usize, depth: usize, pristine_hex: &str, alphabet: &[usize]) {
-    let pristine: Vec<Vec<u8>> = pristine_hex.split(',').map(|h| hex::decode(h).unwrap_or_default()).collect();
+    // the pristine results are handed over through a file (they exceed the argument size limit)
+    let pristine_text = std::fs::read_to_string(pristine_hex).unwrap_or_else(|_| pristine_hex.to_string());
+    let pristine: Vec<Vec<u8>> = pristine_text.trim().split(',').map(|h| hex::decode(h).unwrap_or_default()).collect();
     struct W<'a> {
         seed: u64,
         pristine: &'a [Vec<u8>],
@@ -247,6 +271,7 @@ pub fn c09_replay(case: &Value) -> Result<Vec<Viol>, String> {
             let order: Vec<u8> = serde_json::from_value(case["order"].clone()).map_err(|e| e.to_string())?;
             v.extend(run_schedule(seed, &t1, &t2, &order, &pr));
         }
+        "paused" => v.extend(run_paused(seed, case["x"].as_u64().unwrap_or(0) as usize, case["z"].as_u64().unwrap_or(0) as usize, &pr)),
         "entry-points" => v.extend(entry_point_agreement(&pr)),
         k => return Err(format!("unknown C09 case {}", k)),
     }
@@ -262,6 +287,15 @@ fn entry_point_agreement(pr: &[Vec<u8>]) -> Vec<Viol> {
     if pr[2] != pr[7] {
         v.push(Viol::new("C09:entry-points-disagree:aux", "signing with a valid aux buffer yields a different signature/successor than without"));
     }
+    if pr.len() > 22 {
+        // the outer signature of the nesting call and the nested signature equal the plain calls
+        let mut expect = pr[2].clone();
+        expect.extend_from_slice(b"|NESTED:");
+        expect.extend_from_slice(&pr[4]);
+        if pr[22] != expect {
+            v.push(Viol::new("C09:nested-call-differs", "a sign call made from inside the key-update callback of another sign call changes one of the two results"));
+        }
+    }
     if pr.len() > 20 && pr[20] != pr[0] {
         v.push(Viol::new("C09:entry-points-disagree:Seed::from", "key generation from a Seed built with Seed::from([u8; 32]) (non-zero bytes beyond the hash length) differs from key generation from the same n seed bytes"));
     }
@@ -273,7 +307,8 @@ fn entry_point_agreement(pr: &[Vec<u8>]) -> Vec<Viol> {
         v.push(Viol::new("C09:entry-points-disagree:keygen-aux", "key generation with an aux buffer yields a different key pair"));
     }
     for (i, r) in pr.iter().enumerate() {
-        if r.starts_with(b"PANIC") {
+        // call 21's callback panics by construction (the unwind passes through the library to the caller)
+        if r.starts_with(b"PANIC") && i != 21 {
             v.push(Viol::new(format!("C09:call-panics:{}", i), format!("'{}' panics in a fresh process", call_name(i))));
         }
     }
@@ -322,6 +357,60 @@ fn run_schedule(seed: u64, t1: &[usize], t2: &[usize], order: &[u8], pr: &[Vec<u
     drop(c2);
     let _ = h1.join();
     let _ = h2.join();
+    v
+}
+
+/// thread 1 runs call `x` and is paused INSIDE its key-update callback (before the callback answers);
+/// thread 2 then runs call `z` to completion; thread 1 resumes.  Both results must equal the pristine ones.
+fn run_paused(seed: u64, x: usize, z: usize, pr: &[Vec<u8>]) -> Vec<Viol> {
+    enum Msg {
+        Reached,
+        Done(Vec<u8>),
+    }
+    let (tx, rx) = mpsc::channel::<Msg>();
+    let (tx_resume, rx_resume) = mpsc::channel::<()>();
+    let tx1 = tx.clone();
+    let h1 = std::thread::Builder::new()
+        .stack_size(64 << 20)
+        .spawn(move || {
+            let txh = tx1.clone();
+            let fired = std::cell::Cell::new(false);
+            lib_api::CB_HOOK.with(|h| {
+                *h.borrow_mut() = Some(Box::new(move || {
+                    if !fired.replace(true) {
+                        let _ = txh.send(Msg::Reached);
+                        let _ = rx_resume.recv();
+                    }
+                }))
+            });
+            let r = exec_call(seed, x);
+            lib_api::CB_HOOK.with(|h| *h.borrow_mut() = None);
+            let _ = tx1.send(Msg::Done(r));
+        })
+        .unwrap();
+    let mut v = vec![];
+    let mut r1: Option<Vec<u8>> = None;
+    let mut paused = false;
+    match rx.recv() {
+        Ok(Msg::Reached) => paused = true,
+        Ok(Msg::Done(r)) => r1 = Some(r),
+        Err(_) => {}
+    }
+    let h2 = std::thread::Builder::new().stack_size(64 << 20).spawn(move || exec_call(seed, z)).unwrap();
+    let r2 = h2.join().unwrap_or_default();
+    if paused {
+        let _ = tx_resume.send(());
+        if let Ok(Msg::Done(r)) = rx.recv() {
+            r1 = Some(r);
+        }
+    }
+    let _ = h1.join();
+    if r2 != pr[z] {
+        v.push(Viol::new(format!("C09:concurrent-callback:{}", z), format!("'{}' executed while another thread was inside the key-update callback of '{}' differs from its result in a fresh process", call_name(z), call_name(x))));
+    }
+    if r1.as_deref() != Some(&pr[x][..]) {
+        v.push(Viol::new(format!("C09:concurrent-callback:{}", x), format!("'{}' (paused inside its key-update callback while '{}' ran on another thread) differs from its result in a fresh process", call_name(x), call_name(z))));
+    }
     v
 }
 
@@ -392,7 +481,14 @@ pub fn run_c09(ctx: &Ctx) -> (&'static str, Map<String, Value>) {
     }
     // histories: one single-threaded child process per first call.  Two passes: the complete
     // alphabet to depth `depth - 1`, the core alphabet to depth `depth` (+1 in the thorough tier)
-    let pristine_hex: String = pr.iter().map(hex::encode).collect::<Vec<_>>().join(",");
+    let pristine_hex: String = {
+        let text = pr.iter().map(hex::encode).collect::<Vec<_>>().join(",");
+        let dir = format!("{}/target", crate::ctx::root());
+        let _ = std::fs::create_dir_all(&dir);
+        let path = format!("{}/c09-pristine-{}.hex", dir, std::process::id());
+        std::fs::write(&path, text).expect("write pristine file");
+        path
+    };
     let all: Vec<usize> = (0..NCALLS).collect();
     let core_depth = if ctx.tier.thorough() { depth + 1 } else { depth };
     let mut jobs: Vec<(usize, usize, String)> = vec![];
@@ -407,6 +503,7 @@ pub fn run_c09(ctx: &Ctx) -> (&'static str, Map<String, Value>) {
         use rayon::prelude::*;
         jobs.par_iter().map(|(first, d, alpha)| self_exe(&["c09-worker".into(), seed.to_string(), first.to_string(), d.to_string(), pristine_hex.clone(), alpha.clone()])).collect()
     };
+    let _ = std::fs::remove_file(&pristine_hex);
     let mut executed = 0u64;
     let mut histories = 0u64;
     for o in outs {
@@ -454,6 +551,19 @@ pub fn run_c09(ctx: &Ctx) -> (&'static str, Map<String, Value>) {
             }
         }
     }
+    // a switch point INSIDE the key-update callback: every signing call paused there x every call on the other thread
+    let mut paused_schedules = 0u64;
+    for x in [2usize, 4, 5, 7, 11, 14, 16, 17, 19] {
+        for z in 0..NCALLS {
+            if z == 22 {
+                continue;
+            }
+            paused_schedules += 1;
+            for v in run_paused(seed, x, z, &pr) {
+                ctx.report(&v, || json!({"engine":"c09","kind":"paused","seed":seed,"x":x,"z":z}));
+            }
+        }
+    }
     // free-running sanity net (SAMPLING, not the deciding step)
     let free_calls = {
         use rayon::prelude::*;
@@ -492,12 +602,13 @@ pub fn run_c09(ctx: &Ctx) -> (&'static str, Map<String, Value>) {
     m.insert("histories_depth_core_alphabet".into(), json!(core_depth));
     m.insert("core_alphabet".into(), json!(CORE.iter().map(|c| call_name(*c)).collect::<Vec<_>>()));
     m.insert("histories".into(), json!(histories));
-    m.insert("schedules".into(), json!(schedules));
+    m.insert("schedules".into(), json!(schedules + paused_schedules));
+    m.insert("schedules_with_a_switch_inside_the_callback".into(), json!(paused_schedules));
     m.insert("schedule_assignments".into(), json!(triples.len() * triples.len()));
     m.insert("free_running_calls_SAMPLING".into(), json!(free_calls));
     m.insert("structural_side_condition_holds".into(), json!(clean));
     m.insert("alphabet".into(), json!((0..NCALLS).map(call_name).collect::<Vec<_>>()));
-    m.insert("rule".into(), json!(format!("every sequence of calls over the full 21-call alphabet up to depth {} and over the 10-call core alphabet one call deeper (two deeper in the thorough tier) (state = the history, no merging), each executed call compared with the pristine result of the same call from a fresh process; all 20 interleavings of two OS threads x three calls for {} call assignments under a baton scheduler", depth - 1, triples.len() * triples.len())));
+    m.insert("rule".into(), json!(format!("every sequence of calls over the full 23-call alphabet up to depth {} and over the 10-call core alphabet one call deeper (two deeper in the thorough tier) (state = the history, no merging), each executed call compared with the pristine result of the same call from a fresh process; all 20 interleavings of two OS threads x three calls for {} call assignments under a baton scheduler", depth - 1, triples.len() * triples.len())));
     m.insert("exhaustive".into(), json!(true));
     ("model_checking", m)
 }
